@@ -27,6 +27,8 @@ func main() {
 		cmdResolve()
 	case "subst":
 		cmdSubst()
+	case "emit":
+		cmdEmit()
 	default:
 		fmt.Fprintln(os.Stderr, "unknown command", os.Args[1])
 		os.Exit(2)
